@@ -8,14 +8,19 @@ import (
 	"fmt"
 
 	"reflect"
+	"regexp"
+	"strings"
 
 	"github.com/antonmedv/expr"
 	"github.com/antonmedv/expr/ast"
 	"github.com/antonmedv/expr/checker"
 	"github.com/antonmedv/expr/conf"
+	"github.com/antonmedv/expr/optimizer"
 	"github.com/antonmedv/expr/parser"
 	"github.com/antonmedv/expr/vm"
 )
+
+var c15ElemTag = regexp.MustCompile(`\(arr (?:[a-z0-9]+|\(other [0-9a-f-]+\)) ?`)
 
 type variant struct {
 	name string
@@ -59,6 +64,12 @@ var c15variants = []variant{
 	{"Env(map)", func(src string, e *Env) (interface{}, error, bool) {
 		return compileRun(src, e.AsMap(), expr.Env(e.AsMap()), expr.Optimize(false))
 	}},
+	{"Env(*struct)+optimizer", func(src string, e *Env) (interface{}, error, bool) {
+		return compileRun(src, e, expr.Env(e))
+	}},
+	{"Env(map)+optimizer", func(src string, e *Env) (interface{}, error, bool) {
+		return compileRun(src, e.AsMap(), expr.Env(e.AsMap()))
+	}},
 	{"Env(*struct)+AllowUndefined", func(src string, e *Env) (interface{}, error, bool) {
 		return compileRun(src, e, expr.Env(e), expr.AllowUndefinedVariables(), expr.Optimize(false))
 	}},
@@ -101,8 +112,27 @@ func runC15(c *Ctx) {
 		}
 		r.Case(cs.Src, len(succ) >= 2)
 		for i := 1; i < len(succ); i++ {
-			if succ[i].val != succ[0].val {
+			a, b := succ[0].val, succ[i].val
+			if strings.Contains(succ[i].name, "+optimizer") || strings.Contains(succ[0].name, "+optimizer") {
+				// with the optimizer on, sequences are compared element by element (C02's ObsEq): a folded
+				// literal array is a []int / []string constant (known finding c02:array-literal-elem-type)
+				a, b = c15ElemTag.ReplaceAllString(a, "(arr "), c15ElemTag.ReplaceAllString(b, "(arr ")
+			}
+			if a != b {
 				key := "c15:" + succ[0].name + " vs " + succ[i].name
+				if strings.Contains(succ[i].name, "+optimizer") {
+					// is it the optimizer (C02's subject) rather than the type information?  compare with the same
+					// variant compiled with Optimize(false)
+					base := strings.TrimSuffix(succ[i].name, "+optimizer")
+					for _, o := range succ {
+						if o.name == base && c15ElemTag.ReplaceAllString(o.val, "(arr ") == a {
+							key = "c15:optimizer-not-transparent"
+							if c15ArrayLiteralCompared(cs.Src, cs.Env) {
+								key = "c15:optimizer-not-transparent:array-literal-elem-type" // = known finding c02:array-literal-elem-type
+							}
+						}
+					}
+				}
 				if arithWithInterfaceOperand(cs.Src, cs.Env) {
 					// listed cause: checker.combined(interface{}, K) = K (typeWeight(interface{}) = 0), pinned by the
 					// repository's own tests; the static type then drives type-directed rewrites/instructions
@@ -220,6 +250,53 @@ func arithWithInterfaceOperand(src string, e *Env) bool {
 				if (isIface(b.Left) && isNum(b.Right)) || (isNum(b.Left) && isIface(b.Right)) {
 					found = true
 				}
+			}
+		}
+	}))
+	return found
+}
+
+// c15ArrayLiteralCompared: after check+optimize the tree has a []int / []string constant (a folded literal
+// array) as an operand of == or != (DeepEqual then sees []int where the unoptimised program builds []interface{}).
+func c15ArrayLiteralCompared(src string, e *Env) bool {
+	tree, err := parser.Parse(src)
+	if err != nil {
+		return false
+	}
+	cfg := conf.New(e)
+	if _, err := checker.Check(tree, cfg); err != nil {
+		return false
+	}
+	if err := optimizer.Optimize(&tree.Node, cfg); err != nil {
+		return false
+	}
+	found := false
+	isFolded := func(n ast.Node) bool {
+		c, ok := n.(*ast.ConstantNode)
+		if !ok {
+			return false
+		}
+		switch c.Value.(type) {
+		case []int, []string:
+			return true
+		}
+		return false
+	}
+	// the folded constant may sit below a conditional / parenthesised operand of the comparison
+	var contains func(n ast.Node) bool
+	contains = func(n ast.Node) bool {
+		has := false
+		ast.Walk(&n, visitFn(func(m ast.Node) {
+			if isFolded(m) {
+				has = true
+			}
+		}))
+		return has
+	}
+	ast.Walk(&tree.Node, visitFn(func(n ast.Node) {
+		if b, ok := n.(*ast.BinaryNode); ok && (b.Operator == "==" || b.Operator == "!=") {
+			if contains(b.Left) || contains(b.Right) {
+				found = true
 			}
 		}
 	}))
